@@ -868,8 +868,35 @@ def evidence_programs(rng, bw, n):
         slots = rng.sample(range(0, 6), rng.randrange(1, 4))
         for s in slots:
             for _ in range(rng.randrange(2, 6)):
-                k = rng.randrange(10)
-                if k == 0:      # address-masked store
+                k = rng.randrange(13)
+                if k >= 10:     # one value used twice: stored as it is, and stored again under a second operation
+                    #              (the shared sub-value receives judgements from two different rules)
+                    def unop():
+                        r = rng.randrange(7)
+                        if r == 0:
+                            a.op("ISZERO")
+                        elif r == 1:
+                            a.push(rng.choice([5, 0xff, 2 ** 160 - 1, 2 ** 255])).op(rng.choice(["LT", "GT", "SLT", "EQ"]))
+                        elif r == 2:
+                            a.push(rng.choice([0xff, 0xffff, ADDR_MASK])).op("AND")
+                        elif r == 3:
+                            a.push(1).op(rng.choice(["ADD", "SUB", "MUL"]))
+                        elif r == 4:
+                            a.push(3).op(rng.choice(["SDIV", "SMOD", "DIV"]))
+                        elif r == 5:
+                            a.op("NOT")
+                        else:
+                            a.push(rng.choice([0, 1, 31])).op("SIGNEXTEND")
+                    if rng.random() < 0.5:
+                        a.push(4).op("CALLDATALOAD")
+                    else:
+                        a.push(rng.choice(slots)).op("SLOAD")
+                    unop()
+                    a.raw([0x80])                       # DUP1
+                    a.push(s).op("SSTORE")
+                    unop()
+                    a.push(rng.choice(slots + [s + 8])).op("SSTORE")
+                elif k == 0:      # address-masked store
                     a.op("CALLER").push(ADDR_MASK).op("AND").push(s).op("SSTORE")
                 elif k == 1:    # boolean
                     a.push(4).op("CALLDATALOAD").op("ISZERO").push(s).op("SSTORE")
